@@ -492,7 +492,7 @@ func gen(r *rand.Rand, tier string) []string {
 	// 4. controlled scheduling, seeded: many interleavings of the same small configuration
 	n = 150
 	if thorough {
-		n = 60000
+		n = 48000
 	}
 	for i := 0; i < n; i++ {
 		inst := 2 + r.Intn(4)
@@ -511,7 +511,7 @@ func gen(r *rand.Rand, tier string) []string {
 	//     can be parked between the atomic operations of one call while the others go on
 	n = 260
 	if thorough {
-		n = 30000
+		n = 24000
 	}
 	for i := 0; i < n; i++ {
 		inst := 2 + r.Intn(5)
